@@ -1540,3 +1540,16 @@ mod tests {
 #[cfg(feature = "verif-hooks")]
 #[path = "verif_hooks_c01.rs"]
 pub mod verif_hooks_c01;
+
+/// Verification hooks for the concurrent-writers property (feature
+/// `verif-hooks`, add-only); a child module for the same reason as above.
+#[cfg(feature = "verif-hooks")]
+#[path = "verif_hooks_c09.rs"]
+pub mod verif_hooks_c09;
+
+/// Verification hooks for the roto-filter property C10 (feature
+/// `verif-hooks`, add-only); a child module because the runner's fields and
+/// `filter_payload` are private to this module.
+#[cfg(feature = "verif-hooks")]
+#[path = "verif_hooks_c10.rs"]
+pub mod verif_hooks_c10;
